@@ -298,7 +298,7 @@ def c03_leg(chk, tier, seed):
     thorough = tier == "thorough"
     nprog = 600 if thorough else 70
     toolrun.anchor()
-    prof = dict(out_structs=True, owned_slices=True, callbacks=True, opt_owned=True, held_callbacks=True)
+    prof = dict(out_structs=True, owned_slices=True, callbacks=True, opt_owned=True, held_callbacks=True, write_prob=0.3)
 
     ncpp = 200 if thorough else 20
 
